@@ -58,7 +58,7 @@ theorem readers_find_tables_built {s : St} (h : Good s) : 0 < s.reading → 0 < 
 
 /-- the thread that waited for the writer role re-tests `len > FFT_LEN`: whenever the store `FFT_LEN = len` is executed,
     `len` exceeds the current `FFT_LEN` (every rebuild is a strict growth) -/
-theorem upgrade_rechecks {s t : St} (h : Good s) {len : Int} (hf : fire (.store len) s = some t) :
+theorem upgrade_rechecks {s t : St} (h : Good s) {len : Int} {z : Bool} (hf : fire (.store len z) s = some t) :
     s.flen < len ∧ t.flen = len ∧ t.nStore = s.nStore + 1 := by
   obtain ⟨g, rfl⟩ := fire_some hf
   exact ⟨(good_inv h).store_grows g, rfl, rfl⟩
@@ -125,9 +125,9 @@ set_option maxRecDepth 100000 in
 /-- … and after that thread's store the reader is inside a transform with `FFT_LEN` reset to a smaller value and the tables
     marked empty (negation of `readers_find_tables_built` / `tables_monotone` from process start) -/
 theorem late_init_shrinks_tables : ∃ s, Reachable (cold 2) s ∧ 0 < s.reading ∧ s.flen = 4 ∧ s.tab = 0 ∧ s.nStore = 2 := by
-  have h : (run (f9Trace ++ [.store 4]) (cold 2)).map (fun s => obs s ++ [(s.nStore : Int)]) = some [1, 1, 1, 2, 2, 4, 0, 2] := by
+  have h : (run (f9Trace ++ [.store 4 true]) (cold 2)).map (fun s => obs s ++ [(s.nStore : Int)]) = some [1, 1, 1, 2, 2, 4, 0, 2] := by
     decide
-  cases hr : run (f9Trace ++ [.store 4]) (cold 2) with
+  cases hr : run (f9Trace ++ [.store 4 true]) (cold 2) with
   | none => simp [hr] at h
   | some s =>
     refine ⟨s, reach_of_run _ hr, ?_⟩
